@@ -431,6 +431,15 @@ func lenClass(n int) string {
 	return "len>=2^21"
 }
 
+// overhead renders encoded size minus payload length for a signature; implausible values are folded
+// into one class so that a defect cannot produce an unbounded number of signatures.
+func overhead(d int) string {
+	if d < 0 || d > 10 {
+		return "len+other"
+	}
+	return fmt.Sprintf("len+%d", d)
+}
+
 // sweepLens calls f for every destination length to be tried for an encoding of the given size.
 func sweepLens(size int, reduced bool, f func(L int) *vio) *vio {
 	if !reduced || size <= 8192 {
@@ -484,7 +493,7 @@ func checkBlob(c *blobCodec, val []byte, k kase, w *worker) *vio {
 		return vf("xbinary/"+c.sizeName+"/panic", "%s: panic %v", who, pan)
 	}
 	if p != size {
-		return vf(fmt.Sprintf("xbinary/%s/predicted-len+%d-written-len+%d/%s", c.sizeName, p-len(val), size-len(val), lc),
+		return vf(fmt.Sprintf("xbinary/%s/predicted-%s-written-%s/%s", c.sizeName, overhead(p-len(val)), overhead(size-len(val)), lc),
 			"%s: %s=%d but Marshal%s wrote %d bytes", who, c.sizeName, p, c.name, size)
 	}
 
@@ -614,12 +623,12 @@ var kinds = []string{"byte", "uint16", "uint32", "uint64", "uint", "bytes", "str
 
 func randValue(rng *rand.Rand, bitsN int) uint64 {
 	var v uint64
-	switch rng.Intn(4) {
-	case 0: // uniform
+	switch x := rng.Intn(20); {
+	case x < 9: // uniform
 		v = rng.Uint64()
-	case 1: // log-uniform in length
+	case x < 18: // log-uniform in length
 		v = rng.Uint64() >> uint(rng.Intn(64))
-	case 2: // around a 7-bit group boundary
+	case x == 18: // around a 7-bit group boundary
 		v = uint64(1)<<uint(7*rng.Intn(10)) + uint64(rng.Intn(3)) - 1
 	default: // around any bit boundary
 		v = uint64(1)<<uint(rng.Intn(64)) + uint64(rng.Intn(3)) - 1
